@@ -83,7 +83,8 @@ def m_extern(tag):
 
 
 def m_fresh_peer(it, a, ty, callee):
-    return Adt('peer_id::PeerId', 0, [Atom('multihash', it.sym('local_peer', 8, internal=True))])
+    from .maddr import peer_mh
+    return Adt('peer_id::PeerId', 0, [peer_mh(Int(it.sym('local_peer', 8, internal=True), 8))])
 
 
 def install(it):
